@@ -6,14 +6,21 @@
    dump — the checker compares the model against that previous dump, so nothing is lost).
    All numbers are N in the case syntax.  Options are coded 0 = not found, k+1 = found k. *)
 From Coq Require Import NArith List Bool Arith.
-From V Require Import Base.Outcome Pubkeys.CacheSpec Pubkeys.CacheModel.
+From V Require Import Base.Outcome Pubkeys.CacheSpec Pubkeys.CacheModel Pubkeys.DepositModel.
 Import ListNotations.
 
 (* lookup table of one handle: Pubkey(i) for i < K, ValidatorIndex(p) for p < npub; shape = the Go object
    chain read through the verif hook: (trustedParentCount, len(idx2pub), len(pub2idx)) from the handle to the root *)
 Inductive dump := Dump (pubs idxs : list N) (shape : list (N * N * N)).
 Inductive cstep := CStep (v dst i p : N) (go : gores bool) (obs : list (N * dump)).
-Inductive ccase := CCase (init : list N) (npub k : N) (obs0 : list (N * dump)) (steps : list cstep).
+(* deposit stream: contexts = (state, EpochsContext) pairs; reg = the pubkeys of the state's own validator registry,
+   read from the state after the op; copy = state.CopyState + epc.Clone of context c (p ignored), otherwise
+   phase0.ProcessDeposit of pubkey p on context c; go = GoOk grew (the registry grew / top-up or copy) *)
+Inductive ddump := DDump (reg pubs idxs : list N) (shape : list (N * N * N)).
+Inductive dstep := DStep (copy : bool) (c p : N) (go : gores bool) (obs : list (N * ddump)).
+Inductive ccase :=
+| CCase (init : list N) (npub k : N) (obs0 : list (N * dump)) (steps : list cstep)
+| DCase (init : list N) (npub k : N) (obs0 : list (N * ddump)) (steps : list dstep).
 
 Definition enc_pub (x : out) : N :=
   match x with
@@ -80,6 +87,48 @@ Fixpoint steps_ok (s : St) (last : list dump) (steps : list cstep) : bool :=
       let last' := update_last last obs in
       agree_add x go && state_ok s' last' && steps_ok s' last' r
   end.
+
+(* ---- deposit stream ---- *)
+Variable known : St -> nat -> list pubkey -> pubkey -> bool.
+(* judged on Go's tables alone (used by spec_ok only): are they the tables of a duplicate-free history
+   that extends the state's registry? *)
+Variable tables_ok : ddump -> bool.
+
+Definition agree_dep (x : dout) (g : gores bool) : bool :=
+  match x, g with
+  | DCopied, GoOk _ => true
+  | DToppedUp, GoOk false => true
+  | DAdded, GoOk true => true
+  | DFailed Err, GoErr => true
+  | DFailed (Panic _), GoPanic => true
+  | DFailed Blocked, GoNoReturn => true
+  | DFailed OutOfFuel, GoNoReturn => true
+  | _, _ => false
+  end.
+
+Fixpoint all_ctx_ok (s : dstate St) (c : nat) (last : list ddump) : bool :=
+  match last with
+  | [] => true
+  | DDump reg pubs idxs shape :: r =>
+      list_eqb N.eqb (nth c (d_regs s) []) reg &&
+      lookups_ok (d_cache s) c (Dump pubs idxs shape) &&
+      tables_ok (DDump reg pubs idxs shape) &&
+      all_ctx_ok s (S c) r
+  end.
+Definition update_dlast (last : list ddump) (obs : list (N * ddump)) : list ddump :=
+  fold_left (fun acc (e : N * ddump) => put acc (N.to_nat (fst e)) (snd e)) obs last.
+Definition dstate_ok (s : dstate St) (last : list ddump) : bool :=
+  (length (d_regs s) =? length last) && (nvars (d_cache s) =? length last) && all_ctx_ok s 0 last.
+
+Fixpoint dsteps_ok (s : dstate St) (last : list ddump) (steps : list dstep) : bool :=
+  match steps with
+  | [] => true
+  | DStep copy c p go obs :: r =>
+      let o := if copy then DCopy (N.to_nat c) else DDeposit (N.to_nat c) p in
+      let res := d_step St step known s o in
+      let last' := update_dlast last obs in
+      agree_dep (snd res) go && dstate_ok (fst res) last' && dsteps_ok (fst res) last' r
+  end.
 End Check.
 
 Definition shape_of_cache (c : cache) : N * N * N :=
@@ -105,24 +154,65 @@ Fixpoint nodupb (l : list N) : bool :=
   | x :: r => negb (existsb (N.eqb x) r) && nodupb r
   end.
 
+(* registry-as-history judgement on Go's observed tables: L = the leading found entries of Pubkey(0..k-1) *)
+Fixpoint leading (pubs : list N) : list N :=
+  match pubs with
+  | [] => []
+  | x :: r => if N.eqb x 0 then [] else (x - 1)%N :: leading r
+  end.
+Fixpoint is_prefix (a b : list N) : bool :=
+  match a, b with
+  | [], _ => true
+  | x :: a', y :: b' => N.eqb x y && is_prefix a' b'
+  | _, [] => false
+  end.
+Definition enc_opt (o : option nat) : N := match o with Some i => (N.of_nat i + 1)%N | None => 0%N end.
+Definition history_tables_ok (npub : nat) (d : ddump) : bool :=
+  let '(DDump reg pubs idxs _) := d in
+  let L := leading pubs in
+  is_prefix reg L && nodupb L &&
+  forallb (N.eqb 0) (skipn (length L) pubs) &&
+  list_eqb N.eqb (map (fun p => enc_opt (index_of (N.of_nat p) L)) (seq 0 npub)) idxs.
+
 (* impl_ok: Go agrees with the Impl model (the repaired code), outputs, lookup tables and object shapes *)
 Definition impl_ok (c : ccase) : bool :=
-  let '(CCase init npub k obs0 steps) := c in
-  let last0 := update_last [] obs0 in
-  let s0 := i_init init in
-  state_ok istate i_step (fun s => length (ivars s)) i_shape_ok (N.to_nat npub) (N.to_nat k) s0 last0 &&
-  steps_ok istate i_step (fun s => length (ivars s)) i_shape_ok (N.to_nat npub) (N.to_nat k) s0 last0 steps.
+  match c with
+  | CCase init npub k obs0 steps =>
+      let last0 := update_last [] obs0 in
+      let s0 := i_init init in
+      state_ok istate i_step (fun s => length (ivars s)) i_shape_ok (N.to_nat npub) (N.to_nat k) s0 last0 &&
+      steps_ok istate i_step (fun s => length (ivars s)) i_shape_ok (N.to_nat npub) (N.to_nat k) s0 last0 steps
+  | DCase init npub k obs0 steps =>
+      let last0 := update_dlast [] obs0 in
+      let s0 := di_init init in
+      dstate_ok istate i_step (fun s => length (ivars s)) i_shape_ok (N.to_nat npub) (N.to_nat k) (fun _ => true) s0 last0 &&
+      dsteps_ok istate i_step (fun s => length (ivars s)) i_shape_ok (N.to_nat npub) (N.to_nat k)
+                (known_by_cache istate i_step) (fun _ => true) s0 last0 steps
+  end.
 
-(* spec_ok: Go judged against the history Spec directly; a registry with duplicate pubkeys is outside the
-   documented domain (vacuous) *)
+(* spec_ok: Go judged against the Spec directly.  Cache stream: the per-handle history Spec.  Deposit stream:
+   the registry-driven Spec (exists = registry membership) for results, registries and tables, AND on Go's
+   tables alone: every context's cache answers as a duplicate-free history that extends that context's own
+   registry.  A registry with duplicate pubkeys is outside the documented domain (vacuous). *)
 Definition spec_ok (c : ccase) : bool :=
-  let '(CCase init npub k obs0 steps) := c in
-  if nodupb init then
-    let last0 := update_last [] obs0 in
-    let s0 := s_init init in
-    state_ok sstate s_step (fun s => length (svars s)) (fun _ _ _ => true) (N.to_nat npub) (N.to_nat k) s0 last0 &&
-    steps_ok sstate s_step (fun s => length (svars s)) (fun _ _ _ => true) (N.to_nat npub) (N.to_nat k) s0 last0 steps
-  else true.
+  match c with
+  | CCase init npub k obs0 steps =>
+      if nodupb init then
+        let last0 := update_last [] obs0 in
+        let s0 := s_init init in
+        state_ok sstate s_step (fun s => length (svars s)) (fun _ _ _ => true) (N.to_nat npub) (N.to_nat k) s0 last0 &&
+        steps_ok sstate s_step (fun s => length (svars s)) (fun _ _ _ => true) (N.to_nat npub) (N.to_nat k) s0 last0 steps
+      else true
+  | DCase init npub k obs0 steps =>
+      if nodupb init then
+        let last0 := update_dlast [] obs0 in
+        let s0 := ds_init init in
+        let tok := history_tables_ok (N.to_nat npub) in
+        dstate_ok sstate s_step (fun s => length (svars s)) (fun _ _ _ => true) (N.to_nat npub) (N.to_nat k) tok s0 last0 &&
+        dsteps_ok sstate s_step (fun s => length (svars s)) (fun _ _ _ => true) (N.to_nat npub) (N.to_nat k)
+                  (fun _ _ r p => known_by_registry r p) tok s0 last0 steps
+      else true
+  end.
 
 Fixpoint mism (i : N) (cs : list ccase) : list (N * N) :=
   match cs with
